@@ -480,9 +480,15 @@ class C19(scen.WorldProp):
                 if gap > (1 + 1) * max(I0, I1) + 0.03:
                     return f"peal-speed change: a jump of {gap:.3f} s between consecutive strikes"
             k = 0
+            catching_up = True
             for a, b in zip(after[1:], after[2:]):
                 k += 1
                 d = b - a
+                # (a wait that was in progress when a faster speed arrived ends at its old, later time: the next
+                # strikes, already due on the new line, follow at once until Wheatley is back on it)
+                if catching_up and k <= 3 and d < I1 - 1e-6:
+                    continue
+                catching_up = False
                 steps = round(d / I1)
                 if steps in (1, 2) and abs(d - steps * I1) > 1e-6:
                     return f"after the peal-speed change consecutive strikes are {d:.6f} s apart, interval is {I1:.6f}"
